@@ -207,11 +207,18 @@ class TaskScenario(ScenarioData):
 
         These are tasks T where T's dependencies include this task.
         """
+        # A dependency on an enclosing container is a dependency on this task, and a task
+        # also has the dependencies of its own enclosing containers (getAllDependencies)
+        targets = self._selfAndAncestors()
         successors = []
         for task in self.project.tasks:
-            if not task.leaf():
+            if not task.leaf() or task is self.property:
                 continue
-            deps = task.get("depends", self.scenarioIdx) or []
+            task_scenario = task.data[self.scenarioIdx] if task.data else None
+            if task_scenario is not None and hasattr(task_scenario, "getAllDependencies"):
+                deps = task_scenario.getAllDependencies()
+            else:
+                deps = task.get("depends", self.scenarioIdx) or []
             for dep in deps:
                 if isinstance(dep, dict):
                     pred = dep.get("task")
@@ -220,11 +227,20 @@ class TaskScenario(ScenarioData):
                 else:
                     pred = dep
 
-                if pred is self.property:
+                if any(pred is target for target in targets):
                     successors.append(task)
                     break
 
         return successors
+
+    def _selfAndAncestors(self) -> list[Any]:
+        """This task and all its enclosing containers."""
+        nodes = [self.property]
+        parent = self.property.parent
+        while parent:
+            nodes.append(parent)
+            parent = parent.parent
+        return nodes
 
     def _getSuccessorsWithMaxGap(self) -> list[tuple[Any, Any, Any]]:
         """
@@ -570,8 +586,13 @@ class TaskScenario(ScenarioData):
                         if not succ_start:
                             continue
                         # Keep the gap the successor asked for between our end and its start
-                        for dep in successor.get("depends", self.scenarioIdx) or []:
-                            if isinstance(dep, dict) and dep.get("task") is self.property and not dep.get("onstart"):
+                        targets = self._selfAndAncestors()
+                        for dep in successor.data[self.scenarioIdx].getAllDependencies():
+                            if (
+                                isinstance(dep, dict)
+                                and any(dep.get("task") is target for target in targets)
+                                and not dep.get("onstart")
+                            ):
                                 gapduration = dep.get("gapduration")
                                 if gapduration:
                                     from datetime import timedelta
